@@ -10,7 +10,7 @@ _INT_FUNCS = ['structural_fields:Optional._compile', 'structural_fields:Sequence
               'field:Field._compile_impl', 'field:Int._compile', 'field:Int._unpack_fixed_and_primitive_size',
               'field:Int._unpack_fixed_size', 'field:Int._pack_fixed_and_primitive_size', 'field:Int._pack_fixed_size']
 
-_DATA_FUNCS = ['field:Data._unpack_fixed_size', 'field:Data._unpack_variable_size_field',
+_DATA_FUNCS = ['field:Data._compile', 'field:Data._unpack_fixed_size', 'field:Data._unpack_variable_size_field',
                'field:Data._unpack_variable_size_callable', 'field:Data._unpack_with_string_marker',
                'field:Data._unpack_with_regexp_marker', 'field:Data.pack']
 
